@@ -723,10 +723,14 @@ def r24_call_shim(src, item, ed, opts):
         elif kind == "ref_index":
             idx = {tuple(x["range"]): x for x in nodes_of(item, "index")}
             c = [n for n in nodes_of(item, "ref") if tuple(n["expr"]) in idx and (sp.get("base") is None or src.text(*idx[tuple(n["expr"])]["expr"]).replace(" ", "") == sp["base"].replace(" ", ""))]
+            if sp.get("index_matches") is not None:
+                c = [n for n in c if re.fullmatch(sp["index_matches"], re.sub(r"\s+", "", src.text(*idx[tuple(n["expr"])]["index"])), re.S)]
             for n in c:
                 n["_idx"] = idx[tuple(n["expr"])]
         elif kind == "index":
             c = [n for n in nodes_of(item, "index") if sp.get("base") is None or src.text(*n["expr"]).replace(" ", "") == sp["base"].replace(" ", "")]
+            if sp.get("index_matches") is not None:
+                c = [n for n in c if re.fullmatch(sp["index_matches"], re.sub(r"\s+", "", src.text(*n["index"])), re.S)]
         elif kind == "cast":
             c = [n for n in nodes_of(item, "cast") if n["ty"] == sp["ty"]]
         elif kind == "assign":
@@ -916,11 +920,19 @@ def r36_for_chars(src, item, ed, opts):
                 continue
             raise LostAnchor(f"for-loop #{sp.get('n')} of {item['path']}")
         ex = src.text(*n["expr"]).strip()
+        it = sp.get("it", "vx_it")
+        pat = src.text(*n["pat"])
+        mt = re.fullmatch(r"(.+)\.chars\(\)\s*\.take\((.+)\)", ex, re.S)
+        if mt and n["loop_kind"] == "for":
+            # `.take(N)`: at most N characters
+            k = sp.get("k", "vx_taken")
+            ed.replace(n["range"][0], n["body"][0], f"let mut {it} = vx_chars({mt.group(1).strip()}); let mut {k}: usize = 0; {sp.get('ghost_after_let', '')} while {k} < {mt.group(2).strip()} ", "R36")
+            ed.insert(n["body"][0] + 1, f" let Some({pat}) = {it}.next() else {{ break; }}; {k} += 1; ", "R36", prio=-5)
+            ed.count("R36")
+            continue
         m = re.fullmatch(r"(.+)\.chars\(\)", ex, re.S)
         if not m or n["loop_kind"] != "for":
             raise Unsupported(f"R36 expects `for c in S.chars()`, found `{ex}`")
-        it = sp.get("it", "vx_it")
-        pat = src.text(*n["pat"])
         ed.replace(n["range"][0], n["body"][0], f"let mut {it} = vx_chars({m.group(1).strip()}); {sp.get('ghost_after_let', '')} while let Some({pat}) = {it}.next() ", "R36")
         ed.count("R36")
 
